@@ -420,6 +420,29 @@ def run(ctx):
             continue
         shutil.copy(os.path.join(vlib.VERIF, "dyn", "C06_tables.v"), os.path.join(gdir, "C06_tables.v"))
         ctx.prove(os.path.join(gdir, "C06_tables.v"), extra_R=[(gdir, "ShroudGen")], name="C06_tables_%s.v" % lang.replace("+", "x"))
+    # Python wrapper statements: the error exit releases what the normal exit releases
+    gdir = os.path.join(ctx.bdir, "gen_pycleanup")
+    os.makedirs(gdir, exist_ok=True)
+    rc, out = vlib.sh([vlib.PY, os.path.join(vlib.VERIF, "tools", "gen_tables.py"), "pycleanup", "c++", os.path.join(gdir, "GenPyCleanup.v")])
+    if rc != 0:
+        ctx.broken.append(("proof", "gen-pycleanup", out[-1500:]))
+    else:
+        rc, out = vlib.sh(["coqc", "-R", gdir, "ShroudGen", "GenPyCleanup.v"], cwd=gdir)
+        if rc != 0:
+            ctx.broken.append(("proof", "gen-pycleanup-compile", out[-1500:]))
+        else:
+            shutil.copy(os.path.join(vlib.VERIF, "dyn", "C06_pycleanup.v"), os.path.join(gdir, "C06_pycleanup.v"))
+            okp, out = ctx.prove(os.path.join(gdir, "C06_pycleanup.v"), extra_R=[(gdir, "ShroudGen")])
+            if not okp:
+                txt = open(os.path.join(gdir, "GenPyCleanup.v")).read()
+                for m in re.finditer(r'\("([^"]*)", \[(.*?)\], \[(.*?)\]\)', txt):
+                    c = re.findall(r'"((?:[^"]|"")*)"', m.group(2))
+                    f = re.findall(r'"((?:[^"]|"")*)"', m.group(3))
+                    miss = [x for x in c if x not in f]
+                    if miss:
+                        ctx.violation("failing-input", {"what": "a Python wrapper statement releases a temporary on the normal exit path but not on the error exit path "
+                                                                "(a later argument that fails to convert leaks it)",
+                                                        "input": {"statement": m.group(1), "released_on_cleanup_only": miss}})
     drv = ctx.driver()
     sys.path.insert(0, os.path.join(vlib.VERIF, "tools"))
     exe = build(ctx)
